@@ -188,9 +188,11 @@ class base(GenericEquality, restriction.base):
                 f(self.__class__, l, enabled, tristate_locked)
 
         if not self._evaluate_wipe_empty or l:
+            # a group left with a single child is that child only for and/or groups;
+            # '?? ( a )' is always satisfied and an emptied '^^ ( )' / '?? ( )' counts as matched.
             if force_collapse or (
-                (issubclass(parent_cls, self.__class__) and self._evaluate_collapsible)
-                or len(l) <= 1
+                self._evaluate_collapsible
+                and (issubclass(parent_cls, self.__class__) or len(l) <= 1)
             ):
                 parent_seq.extend(l)
             else:
